@@ -125,7 +125,9 @@ func (fr *Frame) stdModel(name string, fn *ssa.Function, args []Val, pos token.P
 					Ite(App("fp.eq", SBool, x, App("fp.neg", SFP, two)), fpLit(math.Copysign(0, -1)), App("fp.add", SFP, RNE, x, two))))
 			return one(w)
 		}
-		if c.fp {
+		// flag remopaque: the remainder is left uninterpreted (nothing about its value is used by the contract;
+		// fp.rem costs the solvers minutes per occurrence even when it is irrelevant to the goal)
+		if c.fp && !(c.contract != nil && c.contract.Flags["remopaque"] != "") {
 			return one(App("fp.rem", SFP, T(0), T(1)))
 		}
 		return one(UFApp("umath.Remainder", SFP, T(0), T(1)))
